@@ -9,3 +9,12 @@ add("C20", "hdmc/inputmc", "model_checking",
     "Complete grid (version x Host header forms x URI authority forms x SNI present/absent/case/different) through the public ValidateSNI layer around a recording service, compared with a reference predicate written from the statement (named host, case-insensitive, port ignored, validated mark seen by the inner service).",
     "Host/SNI values are a finite menu of syntactically valid forms; cases that name no host are don't-care. TlsConnectionInfo is injected as a request extension (its fields are public), not produced by a real handshake.",
     "bounded-exhaustive input enumeration vs reference model", "DESIGN.md §5, §8 C20")
+
+add("C10", "hdmc/hemc", "model_checking",
+    "The real EyeballSet is executed in deterministic virtual time (tokio paused clock) on every configuration of a complete grid: up to 4 (thorough 5) scripted attempts x outcome {ok,err,never} x latency grid x stagger delay {none,0,finite} x overall timeout {none,0,finite...} x initial concurrency {none,0,1..N}; result value and completion time are checked against predicates P1-P7 taken from the statement.",
+    "Virtual time in 10 ms units (timer granularity below that is outside the model); ties at one instant are don't-care where the statement does not order them; the TcpConnecting error mapping is a supplementary one-sided run over real loopback sockets.",
+    "exhaustive grid execution of the implementation in virtual time, predicate oracle", "DESIGN.md §4, §8 C10")
+add("C11", "hdmc/hemc", "model_checking",
+    "Same complete grid as C10; first-poll time, completion time and drop of every scripted attempt are recorded in virtual time and checked against Q1-Q5 (order/at-most-once, initial batch bound, every later start justified by an elapsed stagger delay or a failed running attempt, started as soon as either happens, overall deadline met).",
+    "Initial concurrency 0 is read as 'the first attempt may start at once'. Same virtual-time assumptions as C10.",
+    "exhaustive grid execution of the implementation in virtual time, predicate oracle", "DESIGN.md §4, §8 C11")
